@@ -51,6 +51,19 @@ def loop_ok(n):
         e = F.strip(le["e"])
         if F.is_call(e, "std::iter::Iterator::next") and le["pat"].get("variant") == "Some":
             return "while-let over " + (F.strip(e["args"][0]).get("ty") or "?")
+    # manual one-item lookahead: `while let Some(x) = la { la = it.next(); .. }` - the carried option is refilled from the iterator
+    # as the first, unconditional statement of every iteration and assigned nowhere else: one `next()` per iteration
+    if cand.get("k") == "If" and F.strip(cand["cond"]).get("k") == "LetExpr" and cand.get("else") is not None and FL.diverges(cand["else"]):
+        le = F.strip(cand["cond"])
+        e = F.strip(le["e"])
+        then = F.strip(cand["then"])
+        tst = then.get("stmts", []) if then.get("k") == "Block" else []
+        if e.get("k") in ("Var", "Upvar") and le["pat"].get("variant") == "Some" and tst and tst[0]["k"] == "Expr":
+            a0 = F.strip(tst[0]["e"])
+            if a0.get("k") == "Assign" and FL.same_place(a0["l"], e) and F.is_call(F.strip(a0["r"]), "std::iter::Iterator::next"):
+                writes = [x for x in F.walk(then) if x.get("k") in ("Assign", "AssignOp") and FL.same_place(x["l"], e)]
+                if len(writes) == 1:
+                    return "while-let (one-item lookahead) over " + (F.strip(F.strip(a0["r"])["args"][0]).get("ty") or "?")
     # `while v > 0 && .. { v -= k; }` / `while v < <len or bound> && .. { v += k; }`: a strictly monotone integer counter with a
     # bound in the loop condition, stepped by a positive literal as an unconditional top-level statement of the body
     if cand.get("k") == "If" and cand.get("else") is not None and FL.diverges(cand["else"]):
